@@ -25,6 +25,7 @@ fn main() {
         Some("c16-subst") => more::c16_subst(),
         Some("c08-resolve") => more::c08_resolve(),
         Some("c11-validate") => more::c11_validate(),
+        Some("c11-similar") => more::c11_similar(),
         Some("c08-flatten") => more::c08_flatten(),
         Some("c10-paths") => more::c10_paths(),
         Some("c08-typeir") => more::c08_typeir(),
